@@ -1116,7 +1116,9 @@ impl TransactionBuilder {
         // we need some value for these for it to be a a valid transaction
         // but since we're only calculating the difference between the fee of two transactions
         // it doesn't matter what these are set as, since it cancels out
-        self_copy.set_final_fee(BigNum::zero());
+        // (it has to be as wide as the placeholder `min_fee()` uses: a requested minimum fee is compared with
+        // both, and a narrower fee field would let it fall between the two)
+        self_copy.set_final_fee((0x1_00_00_00_00u64).into());
 
         let fee_before = min_fee(&self_copy)?;
         let aligned_fee_before = self.fee_request.get_new_fee(fee_before);
@@ -1157,7 +1159,8 @@ impl TransactionBuilder {
         // we need some value for these for it to be a a valid transaction
         // but since we're only calculating the different between the fee of two transactions
         // it doesn't matter what these are set as, since it cancels out
-        self_copy.set_final_fee(BigNum::zero());
+        // (same width as the placeholder of `min_fee()`, see `fee_for_input`)
+        self_copy.set_final_fee((0x1_00_00_00_00u64).into());
 
         let fee_before = min_fee(&self_copy)?;
         let aligned_fee_before = self.fee_request.get_new_fee(fee_before);
